@@ -71,6 +71,11 @@ type ValStringer struct{ S string }
 
 func (v ValStringer) String() string { return v.S }
 
+// IDList is a named slice type with a value-receiver method.
+type IDList []int
+
+func (l IDList) Count() int { return len(l) }
+
 // WithNilEmbedded promotes X through an embedded pointer that is nil.
 type Embedded struct{ X string }
 type WithNilEmbedded struct{ *Embedded }
